@@ -442,11 +442,54 @@ impl Exec {
         CString::new(p.to_string_lossy().as_bytes()).unwrap()
     }
 
+    /// File faults below `std::fs` for a constructor that reads a file (hooks H8/H9 route the
+    /// C API's `std::fs::read_to_string` through the seam). Which fault, if any, is a function of
+    /// the file content, so a replay injects the same one: EIO at the first or second read (the
+    /// constructor must return null), EINTR at the first reads or short reads throughout (nothing
+    /// may change).
+    fn file_faults(&self, source: &Source, content: &[u8], stats: &mut Counters) -> Option<std::sync::Arc<dstsim::simfs::FsSim>> {
+        use dstsim::simfs::{Fault, OpKind};
+        if !matches!(source, Source::File) {
+            return None;
+        }
+        let h = content.iter().fold(0xcbf29ce484222325u64, |a, &b| (a ^ u64::from(b)).wrapping_mul(0x100000001b3));
+        let name = format!("f{}.alist", self.file_no);
+        let plan = match h % 8 {
+            0 => crate::fsfault::FsPlan::one(&name, OpKind::Read, (h >> 8) % 2, Fault::Io),
+            1 => {
+                let mut p = crate::fsfault::FsPlan::one(&name, OpKind::Read, 0, Fault::Interrupted);
+                p.faults.extend(crate::fsfault::FsPlan::one(&name, OpKind::Read, 2, Fault::Interrupted).faults);
+                p
+            }
+            2 => crate::fsfault::FsPlan { read_chunks: vec![(name, vec![1 + ((h >> 8) % 13) as usize, 3])], ..Default::default() },
+            _ => return None,
+        };
+        let _ = stats;
+        let fs = plan.install();
+        dstsim::simfs::set(Some(fs.clone()));
+        Some(fs)
+    }
+
+    /// Remove the fault layer; true if a hard fault took effect.
+    fn end_file_faults(fs: Option<std::sync::Arc<dstsim::simfs::FsSim>>, stats: &mut Counters) -> bool {
+        dstsim::simfs::set(None);
+        match fs {
+            None => false,
+            Some(fs) => {
+                for (k, n) in fs.fired() {
+                    stats.add(&format!("faults_fired/simfs while a constructor reads its file: {}", k), n);
+                }
+                fs.hard_fault_fired()
+            }
+        }
+    }
+
     /// Execute one operation; returns Err(detail) on an oracle mismatch and the probes it hit.
     fn step(&mut self, op: &FfiOp, stats: &mut Counters) -> Result<(), String> {
         match op {
             FfiOp::DecCtor { slot, source, content, content_kind, imp, punct } => {
                 let want = model_dec_ctor(source, content, imp, punct);
+                let mut hard_io = false;
                 let imp_c = cstr(imp.as_bytes());
                 let punct_c = cstr(punct.as_bytes());
                 let ptr = unsafe {
@@ -457,10 +500,14 @@ impl Exec {
                         }
                         _ => {
                             let p = self.path_for(source, content);
-                            ldpc_toolbox_decoder_ctor(p.as_ptr(), imp_c.as_ptr(), punct_c.as_ptr())
+                            let fs = self.file_faults(source, content, stats);
+                            let r = ldpc_toolbox_decoder_ctor(p.as_ptr(), imp_c.as_ptr(), punct_c.as_ptr());
+                            hard_io = Self::end_file_faults(fs, stats);
+                            r
                         }
                     }
                 };
+                let want = if hard_io { Err("unreadable file (an injected EIO while reading it)".to_string()) } else { want };
                 stats.inc(&format!("faults_fired/ctor input: {} via {}", content_kind, src_name(source)));
                 match (&want, ptr.is_null()) {
                     (Ok(m), false) => {
@@ -488,6 +535,7 @@ impl Exec {
                     }
                 };
                 let punct_c = cstr(punct.as_bytes());
+                let mut hard_io = false;
                 let ptr = unsafe {
                     match source {
                         Source::Text => {
@@ -496,11 +544,15 @@ impl Exec {
                         }
                         _ => {
                             let p = self.path_for(source, content);
-                            ldpc_toolbox_encoder_ctor(p.as_ptr(), punct_c.as_ptr())
+                            let fs = self.file_faults(source, content, stats);
+                            let r = ldpc_toolbox_encoder_ctor(p.as_ptr(), punct_c.as_ptr());
+                            hard_io = Self::end_file_faults(fs, stats);
+                            r
                         }
                     }
                 };
                 stats.inc(&format!("faults_fired/ctor input: {} via {}", content_kind, src_name(source)));
+                let want = if hard_io { Err("unreadable file (an injected EIO while reading it)".to_string()) } else { want };
                 match (&want, ptr.is_null()) {
                     (Ok(m), false) => {
                         self.encs[*slot] = (ptr, Some(m.clone()));
